@@ -27,15 +27,24 @@ def run(ctx):
               "rotation_matrix -> array_like(like=<float>) yields an object "
               "array and the front-page example raises")
     ctx.do(H.rule_row_convention)
+    ctx.do(MI.rule_form1)
+    ctx.do(MI.rule_rc2, [HYP, "geometry_tools/projective.py"])
     ctx.do(H.rule_g2)
     ctx.do(H.rule_odd1)
     ctx.do(DG.rule_hd1)
     ctx.do(DG.rule_hd1_attr)
     ctx.do(NP.rule_ar1, [HYP])
+    ctx.do(MI.rule_ori1)
     ctx.do(MI.rule_rng1, only={"polygon_interior_angle", "TangentVector.angle",
                                "regular_polygon_radius"})
     ctx.do(D.rule_lk1, [HYP], scope=ctx.scope(ENTRIES))
     ctx.do(CA.rule_c2, "ProjectiveObject", scope=ctx.scope(ENTRIES))
+    ctx.do(SH.rule_hom1, parts=("hyp",), only={
+        "TangentVector.normalized", "TangentVector.angle",
+        "TangentVector.point_along", "TangentVector.origin_to",
+        "TangentVector.isometry_to", "Point.origin_to",
+        "Point.unit_tangent_towards", "None.timelike_to",
+        "None.spacelike_to", "TangentVector._compute_aux_data"})
     ctx.do(SH.rule_sh5, only={"TangentVector.normalized", "TangentVector.angle", "TangentVector.point_along", "TangentVector.origin_to", "TangentVector.isometry_to", "Point.origin_to", "Point.unit_tangent_towards"})
     ctx.do(u1, ENTRIES, min_functions=15)
     ctx.r.assume("every numerical clause (origin -> p, distances along "
